@@ -103,6 +103,8 @@ class Instance:
             # never a member of the receiving variable's domain)
             vals = (list(range(n)) if kind == "int" else ["%s_v%d" % (v, i) for i in range(n)] if kind == "own"
                     else ["v%d" % i for i in range(n)])
+            if sp.get("domain_values", {}).get(v):
+                vals = list(sp["domain_values"][v])          # explicit values (e.g. a domain shifted w.r.t. another one)
             d = Domain("d_" + v, "", vals)
             self.domains[v] = vals
             if v in sp.get("varcosts", []):
